@@ -1,7 +1,7 @@
 SPECIFICATION GSpec
 CONSTANTS N = 2
           DOUBLE = TRUE
-          ARITY0 = FALSE
+          ARITY0 = TRUE
 CHECK_DEADLOCK FALSE
 INVARIANT Emit
 INVARIANT IdsUnique
